@@ -210,6 +210,16 @@ fn inputs(ctx: &Ctx) -> (Vec<String>, String) {
             nprobe += 2;
         }
     }
+    // size arithmetic: huge (legal) counts in every position whose sizes the analysis adds or multiplies
+    for n in ["4294967296", "9223372036854775807", "9223372036854775808", "18446744073709551615"] {
+        for t in [
+            "(?(a{N})b{N}|c)", "(?(a{N})b|c{N})", "(?((?:a{N}){N})b|c)", "(?(1)a{N}|b{N})", "(?<=a{N}b{N})", "(?<!a{N}|b{N})", "(?:a{N}){N}", "(?:a{N}b{N}){2}", "(a{N})\\1{N}",
+            "(?=a{N})b{N}", "a{N}|b{N}", "(?>a{N})b{N}", "(?i:a{N}b{N})", "(?:a{N}){2,}", "(?:(?:a{N}){2}){N}", "a{N}b{N}c{N}\\b", "(?(?=a{N})b{N})", "(?:a|b{N}){N}+", "\\G(?:a{N}){N}?",
+        ] {
+            v.push(t.replace("N", n));
+            nprobe += 1;
+        }
+    }
     for k in [100usize, 10_000, 200_000] {
         v.push("a".repeat(k));
         v.push("a|".repeat(k));
@@ -219,7 +229,7 @@ fn inputs(ctx: &Ctx) -> (Vec<String>, String) {
         v.push("(a)".repeat(k.min(10_000)));
         nprobe += 6;
     }
-    desc.push_str(&format!(" ({} exhaustive inputs); {} seeded random sequences of 5-40 tokens; {} valid generated patterns and {} single-token mutations of them (delete / duplicate / transpose / insert); {} deep-nesting and length probes (up to 100000 nested openers, 200000 repeated atoms)", n_exh, nrand, valid.len(), nmut, nprobe));
+    desc.push_str(&format!(" ({} exhaustive inputs); {} seeded random sequences of 5-40 tokens; {} valid generated patterns and {} single-token mutations of them (delete / duplicate / transpose / insert); {} deep-nesting, length and size-arithmetic probes (up to 100000 nested openers, 200000 repeated atoms, counts of 2^32 / 2^63 / 2^64-1 in conditions, branches, look-behinds, nested repeats)", n_exh, nrand, valid.len(), nmut, nprobe));
     (v, desc)
 }
 
